@@ -379,6 +379,23 @@ impl DspRuntime for WasmDspRuntime {
                         if next_global_state.len() != state_patch_plan.total_size {
                             next_global_state.resize(state_patch_plan.total_size, 0);
                         }
+                        // The WASM state storage grows on demand, so the old data can still be shorter
+                        // than the old layout (e.g. a swap before the first sample ran): the missing
+                        // words are zero. Pad instead of letting `apply_patches` index out of range.
+                        let needed = state_patch_plan
+                            .patches
+                            .iter()
+                            .map(|p| p.src_addr + p.size)
+                            .max()
+                            .unwrap_or(0);
+                        let mut padded_old;
+                        let old_data: &Vec<u64> = if old_data.len() < needed {
+                            padded_old = old_data.clone();
+                            padded_old.resize(needed, 0);
+                            &padded_old
+                        } else {
+                            old_data
+                        };
                         state_tree::patch::apply_patches(
                             next_global_state.as_mut_slice(),
                             old_data,
